@@ -149,7 +149,7 @@ def case(ctx, i, rng):
     itype = rng.choice(["cell", "cell", "exterior_facet"])
     worlds = oracle.worlds_for(rng, cell, gdim, itype, cplx, n=3)
     verdict, out = check_pass(ctx, "C08", "apply_function_pullbacks", e, apply_function_pullbacks, worlds, localise=False,
-                              extra_key="/" + el.vf_kind, key_depth=0)
+                              key_override=el.vf_kind)
     if verdict == "held":
         if kinds_in(el) != {"identity"}:
             ctx.add_distinct((repr(el), cell, gdim, wrapper))
